@@ -30,16 +30,22 @@ def conjuncts(g):
 for v in vcs:
     if sub and sub not in v.name:
         continue
-    s = z3.Solver()
-    s.set("timeout", tmo)
-    for a in list(pr.ex.global_axioms) + V.str_axioms():
-        s.add(a)
-    for p in v.pc:
-        s.add(p)
-    s.add(z3.Not(v.goal))
+    from pyvc import solve as _solve
+    kept = _solve.prune_hypotheses(v.pc, v.goal)
     t1 = time.time()
-    r = s.check()
-    print(f"{str(r):8s} {time.time() - t1:6.2f}s {v.name} path={v.path} {v.loc}")
+    r = None
+    for hsub in _solve.hypothesis_subsets(v) + [kept]:
+        s = z3.Solver()
+        s.set("timeout", tmo if hsub is kept else min(tmo, 8000))
+        for a in list(pr.ex.global_axioms) + V.str_axioms():
+            s.add(a)
+        for p in hsub:
+            s.add(p)
+        s.add(z3.Not(v.goal))
+        r = s.check()
+        if r == z3.unsat:
+            break
+    print(f"{str(r):8s} {time.time() - t1:6.2f}s {v.name} path={v.path} {v.loc} pc={len(kept)}/{len(v.pc)}")
     if r == z3.sat and sub:
         m = s.model()
         for c in conjuncts(v.goal):
